@@ -39,6 +39,8 @@ theorem pool_congr (a b : St) (h : PoolInv a)
   | zero => rfl
   | succ n ih => unfold mAddFuel; (repeat' split) <;> first | rfl | simp [*]
 @[simp] theorem mPop_mAdd (s : St) : mPop (mAdd s).mpc = none := by unfold mAdd; simp
+@[simp] theorem mPop_mAddF (s : St) : mPop (mAddF s).mpc = none := by
+  rcases mAddF_mpc s with ⟨i, _, h⟩ | ⟨_, h, _⟩ | ⟨_, h, _⟩ <;> rw [h] <;> rfl
 @[simp] theorem mPop_mJoinStart (s : St) : mPop (mJoinStart s).mpc = none := rfl
 @[simp] theorem mPop_mAfterItem (s : St) : mPop (mAfterItem s).mpc = none := by
   unfold mAfterItem; split <;> first | rfl | simp
